@@ -160,7 +160,7 @@ Print Assumptions C03_outline_instance.
 From Mistletoe Require Import Proofs.RoundTrip.
 Theorem C03_fragment_paragraph_lines_instance :
   let t := FQuote [FPara 97 $"b" [ $"second line"; $"third, (line)" ]; FItem (MBullet 45) 2 [FPara 99 [] [ $"d e" ]; FPara 102 [] []]] in
-  wf_b t = true /\ rt_ok t = true /\ one_string_ok t = true /\
+  wf_b t = true /\ one_string_ok t = true /\
   concat (text_of (spell t)) =
     $"> ab" ++ [10] ++ $"> second line" ++ [10] ++ $"> third, (line)" ++ [10] ++ $"> " ++ [10] ++ $"> -  c" ++ [10] ++ $">    d e" ++ [10] ++ $"> " ++ [10] ++ $">    f" ++ [10] /\
   html_f (mkHopts false false) false t =
@@ -171,7 +171,7 @@ Print Assumptions C03_fragment_paragraph_lines_instance.
 
 Theorem C03_fragment_headings_instance :
   let t := FQuote [FHead 2 84 $"itle: 2 + 2"; FPara 97 $"b" [ $"second line" ]; FItem (MBullet 45) 2 [FHead 6 100 $"eep"; FPara 102 [] []]] in
-  wf_b t = true /\ rt_ok t = true /\ one_string_ok t = true /\
+  wf_b t = true /\ one_string_ok t = true /\
   concat (text_of (spell t)) =
     $"> ## Title: 2 + 2" ++ [10] ++ $"> " ++ [10] ++ $"> ab" ++ [10] ++ $"> second line" ++ [10] ++ $"> " ++ [10] ++ $"> -  ###### deep" ++ [10] ++ $"> " ++ [10] ++ $">    f" ++ [10] /\
   html_f (mkHopts false false) false t =
